@@ -1,0 +1,38 @@
+//go:build verif
+// +build verif
+
+package capnp
+
+import "sync"
+
+// VerifYieldHook, when set by the verification harness, is called before every mutex
+// acquisition in capability.go with the mutex about to be locked.  The harness uses it to
+// drive goroutines through a chosen schedule.  Compiled only with the build tag "verif".
+var VerifYieldHook func(mu *sync.Mutex)
+
+func verifYield(mu *sync.Mutex) {
+	if f := VerifYieldHook; f != nil {
+		f(mu)
+	}
+}
+
+// VerifHook is a read-only view of a clientHook for the harness (used at quiescence only).
+type VerifHook struct{ h *clientHook }
+
+// VerifHookOf returns the view of the hook c currently points at (nil if none).
+func VerifHookOf(c *Client) *VerifHook {
+	if c == nil || c.h == nil {
+		return nil
+	}
+	return &VerifHook{c.h}
+}
+
+// State returns refs, calls, whether done is closed and whether the hook is resolved.
+func (v *VerifHook) State() (refs, calls int, done, resolved bool) {
+	select {
+	case <-v.h.done:
+		done = true
+	default:
+	}
+	return v.h.refs, v.h.calls, done, v.h.isResolved()
+}
